@@ -45,6 +45,7 @@
 **             prefix-related names, value objects caught through distinct-but-equal filter objects, or
 **             objects of several types against filters whose entries have several types; see
 **             "Exception objects" below)
+**             msg=0..4|mix (message arguments whose Show uses try/catch/throw itself; see "Message arguments")
 **             kind=chain|seq|seqt depth=N alpha=<codes> ppalpha=<codes> falpha=<codes>
 **             shapes=all|body dyns=all|lex chain=0|1 fork=0|1 fresh=0|1 shard=k/n
 **
@@ -208,7 +209,7 @@ struct deep_res {
   int bad, bad_where, bad_level, bad_seen;  /* first len(current(Exception)) mismatch: where = 'e'ntry 'b'ody e'x'it */
   int exits, bottom_reached, bottom_depth, finished, final_depth, after_ran, after_ok;
 };
-struct shm { int ntr; struct ev tr[MAXEV]; struct deep_res deep; };
+struct shm { int ntr; int badmsg; struct ev tr[MAXEV]; struct deep_res deep; };
 static volatile struct shm* SH;
 static struct ev EX[MAXEV + 8]; static int nex;     /* expected trace */
 static int ref_decisions;                           /* catches that met a pending exception */
@@ -246,6 +247,9 @@ static void ev_add(int kind, int a, int b) {
     e->kind = (unsigned char)kind; e->a = (signed char)a; e->b = (signed char)b;
     e->depth = (signed char)len(EXC);
   }
+  /* white-box extra: a handler must not find the message of a throw that was raised and handled while
+  ** the message of the exception it handles was being formatted (all such inner messages start "inner") */
+  if ((kind == 'H' || kind == 'X') && strncmp(c_str(((struct Exception*)EXC)->msg), "inner", 5) == 0) SH->badmsg = 1;
   SH->ntr = n + 1;
 }
 
@@ -253,14 +257,53 @@ static void ev_add(int kind, int a, int b) {
 
 static void fn1(int l0);
 static void fn2(int l0);
-static void plain_thrower(void) { throw(TB, "from a plain function"); }
+/*
+** Message arguments (msg=0..4|mix).  Every throw passes one extra argument that is shown with %$ while
+** the message is formatted.  msg=0: a plain Int.  Otherwise an object whose Show method uses the exception
+** system itself before it prints:
+**   1  try { throw Inner } catch (e in Inner) { }                 an inner exception of another kind, handled
+**   2  try { throw <the object being thrown outside> } catch (e in <that object>) { }     same kind as the outer
+**   3  try { } catch (e) { }                                        an inner try that throws nothing
+**   4  try { try { throw Inner } catch (e in Inner2) { } } catch (e in Inner) { }         nested two deep
+** msg=mix picks 1..4 by the slot of the throw.  The program must behave exactly as with a plain message:
+** same handlers, same bound object (the one thrown OUTSIDE), same depths; the reference ignores msg.
+*/
+static var ExcInner = CelloEmpty(InnerShowError);
+static var ExcInner2 = CelloEmpty(InnerShowErrorOther);
+struct Msgw { int mode; };
+static var volatile msg_outer;          /* the object of the throw whose message is being formatted */
+static int Msgw_Show(var self, var out, int pos) {
+  struct Msgw* w = self;
+  var outer = msg_outer;
+  switch (w->mode) {
+    case 1: try { throw(ExcInner, "inner, while the outer message is formatted"); } catch (e_ in ExcInner) { } break;
+    case 2: try { throw(outer, "inner throw of the outer object"); } catch (e_ in outer) { } break;
+    case 3: try { } catch (e_) { } break;
+    case 4: try { try { throw(ExcInner, "inner, two deep"); } catch (e_ in ExcInner2) { } } catch (e_ in ExcInner) { } break;
+    default: break;
+  }
+  return print_to(out, pos, "<w%i>", $I(w->mode));
+}
+static var Msgw = Cello(Msgw, Instance(Show, Msgw_Show, NULL));
+static int msg_mode;                    /* 0..4, 5 = mix */
+static var MW[5];
+static void msg_setup(void) {
+  MW[0] = new_raw(Int, $I(0));
+  for (int k = 1; k <= 4; k++) { struct Msgw* w = new_raw(Msgw); w->mode = k; MW[k] = w; }
+}
+static var msg_arg(var outer, int slot) {
+  msg_outer = outer;
+  return MW[msg_mode == 5 ? 1 + (slot & 3) : msg_mode];
+}
+
+static void plain_thrower(void) { throw(TB, "from a plain function %$", msg_arg(TB, 1)); }
 
 /* one statement slot; the throw is written lexically at the slot */
 #define STMT(SLOT, CODE) do { const int c_ = (CODE); ev_add('S', (SLOT), c_); \
   switch (c_) { \
-    case 1: throw(TA, "A from slot %i", $I(SLOT)); break; \
-    case 2: throw(TB, "B from slot %i", $I(SLOT)); break; \
-    case 3: throw(TC, "C from slot %i", $I(SLOT)); break; \
+    case 1: throw(TA, "A from slot %i %$", $I(SLOT), msg_arg(TA, (SLOT))); break; \
+    case 2: throw(TB, "B from slot %i %$", $I(SLOT), msg_arg(TB, (SLOT) + 1)); break; \
+    case 3: throw(TC, "C from slot %i %$", $I(SLOT), msg_arg(TC, (SLOT) + 2)); break; \
     case 4: case 5: case 6: case 7: fn1(KBASE + c_ - 4); break; \
     case 8: plain_thrower(); break; \
     default: break; \
@@ -317,7 +360,7 @@ static void run_top(void) {
 
 /* sentinel { a ; [b] } */
 static void exec_sent(struct prog* a, struct prog* b) {
-  SH->ntr = 0;
+  SH->ntr = 0; SH->badmsg = 0;
   EXC = current(Exception);
   try {
     PP = a; run_top();
@@ -586,7 +629,14 @@ static int compare(const char* kase, const struct prog* a, const struct prog* b,
   }
   int i = 0;
   while (i < nex && i < nact && ev_same(&EX[i], &act[i])) i++;
-  if (i == nex && i == nact) return 1;
+  if (i == nex && i == nact) {
+    if (SH->badmsg) {
+      vf_violation("exc/whitebox/handler-finds-message-of-an-inner-throw", kase, "program: %s%s%s   trace as expected, but a handler was entered while the record's message was that of an exception raised and handled inside a Show method during message formatting",
+        b ? render_prog(a) : "", b ? " ||| " : "", render_prog(b ? b : a));
+      return 0;
+    }
+    return 1;
+  }
   char label[160];
   classify(label, sizeof label, act, nact, i);
   for (int v = 0; v < vf.nviols; v++)               /* already have the shortest case of this label: count only */
@@ -881,13 +931,13 @@ static void deep_rec(int level);
   { int d_ = (int)len(EXC); if (d_ != level + 1) deep_bad('b', level, d_); } \
   if (level == DC.D - 1) { \
     DS.bottom_reached = 1; DS.bottom_depth = (int)len(EXC); \
-    throw(deep_thrown(DC.x), "thrown at the bottom, %i try blocks open", $I(DC.D)); \
+    throw(deep_thrown(DC.x), "thrown at the bottom, %i try blocks open %$", $I(DC.D), msg_arg(deep_thrown(DC.x), DC.D)); \
   } else { deep_rec(level + 1); }
 
 #define DEEP_HAND \
   if (DS.nh < 8) { DS.h[DS.nh].level = level; DS.h[DS.nh].obj = objid(e_); DS.h[DS.nh].depth = (int)len(EXC); } \
   DS.nh++; \
-  if (level == DC.T1 && DC.rt) { throw(deep_thrown(3 - DC.x), "thrown by the handler of level %i", $I(level)); }
+  if (level == DC.T1 && DC.rt) { throw(deep_thrown(3 - DC.x), "thrown by the handler of level %i %$", $I(level), msg_arg(deep_thrown(3 - DC.x), level + 1)); }
 
 /* one level: the parameter is never modified, so it may be read after the longjmp */
 static void deep_rec(int level) {
@@ -932,7 +982,7 @@ static void deep_child(void* arg) {
 
 static const char* deep_class(int D, char* buf, size_t n) {
   int M = (int)EXCEPTION_MAX_DEPTH;
-  if (D == M) snprintf(buf, n, "MAX"); else if (D == M - 1) snprintf(buf, n, "MAX-1"); else if (D == M - 2) snprintf(buf, n, "MAX-2");
+  if (D == M) snprintf(buf, n, "MAX"); else if (D >= M - 4) snprintf(buf, n, "MAX-%d", M - D);
   else snprintf(buf, n, "%d", D);
   return buf;
 }
@@ -1009,9 +1059,12 @@ static void deep_run(void) {
 
 static void deep_all(void) {
   int M = (int)EXCEPTION_MAX_DEPTH;
-  int cand[] = { 1, 2, 3, 17, 100, 1000, M - 2, M - 1, M };
-  long cap = vf_param_i("maxdepth", M);         /* never above MAX: MAX+1 aborts by design */
-  if (cap > M) cap = M;
+  /* a Show method of a message argument opens up to two more try blocks below the innermost level:
+  ** they count against MAX too, so the program itself may then only nest to MAX-2 */
+  int top = M - (msg_mode ? 2 : 0);
+  int cand[] = { 1, 2, 3, 17, 100, 1000, top - 2, top - 1, top };
+  long cap = vf_param_i("maxdepth", top);       /* never above MAX in total: MAX+1 aborts by design */
+  if (cap > top) cap = top;
   int seen[16], ns = 0;
   for (size_t c = 0; c < sizeof cand / sizeof cand[0]; c++) {
     int D = cand[c];
@@ -1050,7 +1103,7 @@ static void show_both(void) {
 static void do_replay(const char* c) {
   if (strncmp(c, "deep:", 5) == 0) {
     if (sscanf(c, "deep:D=%d,T1=%d,T2=%d,x=%d,tf=%d,rt=%d", &DC.D, &DC.T1, &DC.T2, &DC.x, &DC.tf, &DC.rt) != 6 ||
-        DC.D < 1 || DC.D > (int)EXCEPTION_MAX_DEPTH || DC.x < 1 || DC.x > 2) { fprintf(stderr, "replay: bad deep case '%s'\n", c); exit(2); }
+        DC.D < 1 || DC.D > (int)EXCEPTION_MAX_DEPTH - (msg_mode ? 2 : 0) || DC.x < 1 || DC.x > 2) { fprintf(stderr, "replay: bad deep case '%s'\n", c); exit(2); }
     deep_run();
     printf(vf.nviols ? "replay: violation\n" : "replay: as expected\n");
     vf_finish();
@@ -1094,6 +1147,11 @@ int main(int argc, char** argv) {
                 strcmp(om, "mixed1") == 0 ? OBJ_MIXED1 : strcmp(om, "mixed2") == 0 ? OBJ_MIXED2 : strcmp(om, "mixed3") == 0 ? OBJ_MIXED3 : OBJ_TYPES;
     if (objs_mode == OBJ_TYPES && strcmp(om, "types") != 0) { fprintf(stderr, "objs must be types|struct|string|int|mixed1|mixed2|mixed3\n"); return 2; }
     objs_setup();
+    const char* mm = vf_param("msg", "0");
+    msg_mode = strcmp(mm, "mix") == 0 ? 5 : (int)strtol(mm, NULL, 10);
+    if (msg_mode < 0 || msg_mode > 5) { fprintf(stderr, "msg must be 0..4 or mix\n"); return 2; }
+    msg_setup();
+    vf_extra("message_argument_show", "\"%s\"", mm);
     vf_extra("exception_objects", "\"%s\"", om);
   }
 
